@@ -16,6 +16,7 @@ func init() { Registry["C04"] = c04 }
 
 func c04(r *Report) {
 	defer c04Seed5(r)
+	defer c04Seed6(r)
 	p := r.P
 	r.Explanation = "Static decision of the structural conditions behind internal-API authentication: (1) the function that decides whether authentication applies (the skipper closure handed to the token middleware, and what it calls) reads from the request only URL.Path/RawPath — the attribute the router dispatches on — so guard and router cannot disagree; (2) in the token middleware the next handler is reachable only through the skipper or through every token check (credential present, secure, parsed+verified against an authorised key, validated with audience, best-practice fields, issuer == key owner), and every other return is unauthorizedError (401); the inner checks gate their own success returns; (3) the bind table sends /internal,/status,/health,/metrics to the internal address and the route table of the whole module has only exact lower-case first segments from the internal/public sets, so the case-insensitive binder and the case-sensitive guard agree; routes reach a listener only through MultiEcho's dispatcher."
 	r.NotDecided = []string{"how net/http and echo parse exotic request lines (library behaviour)", "cryptographic verification inside jwx"}
